@@ -544,21 +544,29 @@ class BaseSection(base.Sectionable):
             raise TypeError("'%s' object is not iterable" % type(obj_list).__name__)
 
         # Make sure only Sections and Properties with unique names will be added.
+        new_sec_names = []
+        new_prop_names = []
         for obj in obj_list:
             if not isinstance(obj, BaseSection) and not isinstance(obj, BaseProperty):
                 msg = "odml.Section.extend: Can only extend sections and properties."
                 raise ValueError(msg)
 
-            if isinstance(obj, BaseSection) and obj.name in self.sections:
+            if isinstance(obj, BaseSection) and \
+                    (obj.name in self.sections or obj.name in new_sec_names):
                 msg = "odml.Section.extend: Section with name '%s' already exists." % obj.name
                 raise KeyError(msg)
 
             if isinstance(obj, BaseSection):
                 self._validate_child(obj)
+                new_sec_names.append(obj.name)
 
-            if isinstance(obj, BaseProperty) and obj.name in self.properties:
+            if isinstance(obj, BaseProperty) and \
+                    (obj.name in self.properties or obj.name in new_prop_names):
                 msg = "odml.Section.extend: Property with name '%s' already exists." % obj.name
                 raise KeyError(msg)
+
+            if isinstance(obj, BaseProperty):
+                new_prop_names.append(obj.name)
 
         for obj in obj_list:
             self.append(obj)
